@@ -128,6 +128,69 @@ def rejects_any_difference(f):
     return exact
 
 
+def reached_when_flag(g, flag, value):
+    """three-valued value of the guard formula g with the end-of-input flag set to `value`: False = the guarded statement is
+    never reached then, True = always, None = depends on other atoms"""
+    def ev(x):
+        if not isinstance(x, tuple) or not x:
+            return None
+        if x[0] == "T":
+            return True
+        if x[0] == "F":
+            return False
+        if x[0] == "and":
+            vs = [ev(y) for y in x[1:]]
+            return False if any(v is False for v in vs) else True if all(v is True for v in vs) else None
+        if x[0] == "or":
+            vs = [ev(y) for y in x[1:]]
+            return True if any(v is True for v in vs) else False if all(v is False for v in vs) else None
+        if x[0] == "not":
+            v = ev(x[1])
+            return None if v is None else not v
+        if x[0] == "nz" and x[1] == flag:
+            return value
+        if x[0] == "cmp" and x[1] in ("==", "!=") and flag in (x[2], x[3]):
+            other = x[3] if x[2] == flag else x[2]
+            lit = {"true": True, "True": True, "1": True, "false": False, "False": False, "0": False}.get(str(other))
+            if lit is None:
+                return None
+            return (value == lit) if x[1] == "==" else (value != lit)
+        return None
+    return ev(g)
+
+
+def end_protocol(fn, env, loop, use):
+    """(verdict, text): `use` (a node inside `loop`) is reached only for blocks that read_block() returned with its
+    end-of-input flag false"""
+    flags = set()
+    for c_ in ir.calls_in(loop):
+        if callee_name(c_) == "read_block" and c_.get("args"):
+            fp = path(c_["args"][0])
+            if fp:
+                flags.add(ir.path_str(fp))
+    if len(flags) != 1:
+        return None, "no single end-of-input flag handed to read_block() in the loop"
+    flag = list(flags)[0]
+    g_use = None
+    for st, g, loops_ in ir.guarded_statements(fn["body"], env):
+        if st.get("k") in ("IfCond", "LoopHead", "SwitchHead"):
+            continue
+        if any(x is use for x in ir.walk(st)):
+            g_use = g
+    if g_use is None:
+        return None, "statement not found"
+    at_end = reached_when_flag(g_use, flag, True)
+    before = reached_when_flag(g_use, flag, False)
+    name = flag.split("#")[0][2:]
+    if at_end is False and before is not False:
+        return True, "reached only while `%s` is false" % name
+    if flag not in repr(g_use):
+        return False, "reached without a test of `%s`: the empty block that read_block() returns together with %s=true is handled like a block of the file" % (name, name)
+    if before is False:
+        return False, "reached only when `%s` is TRUE: every block of the file is dropped and only the empty block returned at the end of the input is handled" % name
+    return None, "the test of `%s` in front of it is not understood: %s" % (name, show_f(g_use))
+
+
 def check(run):
     from . import C08 as _C08
     _C08.check_tables_append(run, "R18.6")      # merged blocks keep their tables entry for entry
@@ -227,6 +290,12 @@ def check(run):
     run.ob("R18.2", "cdns_merge:remap-before-write", ok, mg, (remaps[0][2] if remaps else mg).get("l", mg["line"]) if remaps else mg["line"],
            "the block's parameter index is rewritten before the block is written" if ok else
            "block_parameters_index must be remapped on the same block object before writer.write_block(block)")
+    if wcalls:
+        wl = [l_ for l_ in ir.walk(mg["body"]) if l_.get("k") in ("While", "For", "Do") and any(x is wcalls[0] for x in ir.walk(l_))
+              and any(callee_name(c_) == "read_block" for c_ in ir.calls_in(l_))]
+        if wl:
+            v_, t_ = end_protocol(mg, env, wl[-1], wcalls[0])
+            run.ob("R18.2", "cdns_merge:write-only-before-end", v_, mg, wcalls[0].get("l", 0), "write_block(block) is " + t_)
     if remaps:
         # the rewrite happens for every block that is written: the only condition it may sit under is the success of the
         # lookup (a block that omits its index means index 0 and needs the new value as much as any other)
@@ -383,9 +452,7 @@ def check(run):
             txt = show(n_["cond"])
             if "m_major_format_version" in txt:
                 ver = (n_, txt)
-    ok = ver is not None and all(m in ver[1] for m in ("m_major_format_version", "m_minor_format_version", "m_private_version")) and "&&" not in ver[1]
-    if not ok and ver is not None:
-        ok = rejects_any_difference(ir.cond(ver[0]["cond"], env))
+    ok = ver is not None and rejects_any_difference(ir.cond(ver[0]["cond"], env))
     run.ob("R18.3", "cdns_merge:version-check", ok, mg, ver[0].get("l", 0) if ver else mg["line"],
            "major, minor and private version are all compared; any mismatch rejects the input" if ok else
            "the version check must reject an input when any of major/minor/private version differs")
@@ -450,8 +517,11 @@ def check(run):
                        and any(x.get("k") == "Break" for x in ir.walk(s))]
             idx_add = [i for i, s in enumerate(body) if any(x is adds[0] for x in ir.walk(s))]
             ok2 = bool(idx_end) and bool(idx_add) and idx_end[0] < idx_add[0]
+            v_, t_ = end_protocol(ic, env, lw[0], adds[0])
+            if v_ is not None:
+                ok2 = v_ and ok2 if v_ else False
             run.ob("R18.4", "cdns_itemcount:%s:after-end-test" % var, ok2, ic, adds[0].get("l", 0),
-                   "only blocks returned before end-of-file are counted" if ok2 else "the empty block returned with end=true is counted too")
+                   "only blocks returned before end-of-file are counted" if ok2 else "the count is " + t_ if v_ is False else "the empty block returned with end=true is counted too")
     # the printed totals are those variables; per-block lines print the three counts in the order qr, aec, mm
     prints = []
     for st, g, loops_ in ir.guarded_statements(ic["body"], env):
